@@ -12,6 +12,7 @@ import (
 	"codeberg.org/TauCeti/mangle-go/factstore"
 	"codeberg.org/TauCeti/mangle-go/functional"
 	"codeberg.org/TauCeti/mangle-go/parse"
+	"codeberg.org/TauCeti/mangle-go/symbols"
 )
 
 // VxStub_provenance_contentHashHex: proof/rule identifiers are content hashes (sha256, not
@@ -72,6 +73,14 @@ func vxPrograms() []vxProg {
 			},
 			edb: []ast.PredicateSym{e2}, idb: []ast.PredicateSym{{Symbol: "q", Arity: 2}},
 		},
+		{ // 4 head variables bound only by an equality (constant, function of a bound variable, copy)
+			rules: []ast.Clause{
+				{Head: vxAt("tagged", X, Y), Premises: []ast.Term{vxAt("e", X, Z), ast.Eq{Left: Y, Right: ast.Number(7)}}},
+				{Head: vxAt("next", X, Y), Premises: []ast.Term{vxAt("e", X, Z), ast.Eq{Left: Y, Right: ast.ApplyFn{Function: symbols.Plus, Args: []ast.BaseTerm{Z, ast.Number(1)}}}}},
+				{Head: vxAt("same", X, Y), Premises: []ast.Term{vxAt("next", X, Z), ast.Eq{Left: Y, Right: X}}},
+			},
+			edb: []ast.PredicateSym{e2}, idb: []ast.PredicateSym{{Symbol: "tagged", Arity: 2}, {Symbol: "next", Arity: 2}, {Symbol: "same", Arity: 2}},
+		},
 	}
 }
 
@@ -82,6 +91,13 @@ func vxApplyBindings(t ast.BaseTerm, bs []Binding) ast.BaseTerm {
 				return b.Value
 			}
 		}
+	}
+	if f, ok := t.(ast.ApplyFn); ok {
+		args := make([]ast.BaseTerm, len(f.Args))
+		for i, x := range f.Args {
+			args[i] = vxApplyBindings(x, bs)
+		}
+		return ast.ApplyFn{Function: f.Function, Args: args}
 	}
 	return t
 }
